@@ -381,7 +381,7 @@ func TestVerif_C15_TCPMux(t *testing.T) {
 					limit := 20 * time.Second
 					if kind == "slow-loris" || kind == "partial-frame" {
 						lbl["timeout-client"] = true
-						limit = 25 * firstTO
+						limit = max(25*firstTO, 10*time.Second)
 					}
 					if !cl.closedByPeer(limit) {
 						dead, dump := vfStuck("TCPMuxDefault")
@@ -518,7 +518,7 @@ func TestVerif_C15_TCPMux(t *testing.T) {
 				// provisional connections expire (timed cases)
 				if timed {
 					for pu, at := range provisionalAt {
-						if time.Since(at) > 25*aliveTO {
+						if time.Since(at) > max(25*aliveTO, 10*time.Second) {
 							mux.mu.Lock()
 							_, ok := mux.getConn(pu, false, localIP)
 							mux.mu.Unlock()
@@ -544,7 +544,7 @@ func TestVerif_C15_TCPMux(t *testing.T) {
 						_, has := mux.getConn(pu, false, localIP)
 
 						return !has
-					}, 25*aliveTO)
+					}, max(25*aliveTO, 10*time.Second))
 					if !ok {
 						fail("C15/provisional/not-expired", "provisional connection for unknown ufrag %s did not expire (alive duration %s)", pu, aliveTO)
 					}
